@@ -19,6 +19,13 @@ COMMON_ASSUMPTIONS = [
 ]
 
 CACHE_RULE = "cache-level histories on the real %s driven one scheduling segment at a time by the baton scheduler (virtual clock, controllable cleanup ticker, recorded callbacks): after EVERY segment the result, the callbacks and a full snapshot (store entries with deadlines, expiry buckets, charges, used, max_cost, sketch rows, doorkeeper words, get-ring, buffer and queue lengths, metrics, closed flags) are compared with the Coq model; hash-map iteration orders and select! arms are reported by the implementation and checked for legality by the model; "
+SUITE_NOTES = {
+    'stress': "suite stress (real parallelism, NOT compared with the model: a test of the model's atomic-step assumption and a search for failing inputs): free-running client threads through clone()d handles of caches of both flavours under Chaos hooks (every yield point costs nothing / a spin / a yield / a short sleep); conservation rounds (lookups, inserts of unique values, get_mut writes, removes, get_ttl, update_max_cost; one round in four on two hot keys with a progress watchdog; a slow only-newer validator in two rounds of three) checked at quiescence, colliding-key rounds (24 threads, values tagged with the conflict hash they were written under), TTL polling while a thread drives the virtual clock, lifecycle rounds (clear / wait / insert / remove in loops, bursts and clear storms racing close()); a case is one round, non-trivial when its threads ran",
+    'cacher': "suite cacher: directed schedules around the expiry sweep (the processor stands in front of a due key while a client re-inserts it without TTL / with a new TTL, writes through get_mut or removes it)",
+    'defaults': "suite defaults (not compared with the model): the all-default Cache::new / AsyncCache::new, builder setters, borrowed key forms, every handle dropped without close(), an AsyncCache whose background tasks all run on one executor thread",
+    'ticker': "suite ticker (not compared with the model): the real cleanup timers of both flavours at two intervals, measured with loose bounds",
+}
+
 PROPS = {
     'C01': {
         'suites': [('policy', 600, 6000, ''), ('stress', 60, 600, ''), ('cachet', 200, 2000, '')],
